@@ -728,6 +728,9 @@ mod n {
             vec![point![0.0, 0.0], point![4.0, 0.0], point![0.0, 4.0]],
             vec![point![0.0, 0.0], point![4.0, 0.0], point![4.0, 4.0], point![2.0, 1.0], point![0.0, 4.0]],
             vec![point![1.0, 0.0], point![3.0, 0.0], point![4.0, 2.0], point![2.0, 4.0], point![0.0, 2.0]],
+            // a side split by an intermediate corner, the outline starting with the three collinear corners (either winding)
+            vec![point![0.0, 0.0], point![2.0, 0.0], point![4.0, 0.0], point![4.0, 3.0], point![0.0, 3.0]],
+            vec![point![0.0, 0.0], point![0.0, 1.5], point![0.0, 3.0], point![4.0, 3.0], point![4.0, 0.0]],
         ]
     }
 
@@ -758,7 +761,7 @@ mod n {
 
     #[test]
     fn n_c13_ray_posed() {
-        drive("C13.ray.posed", "WallGeom::intersects for 4 polygons x 7 poses (tilt, azimuth) x 2 positions; rays from 2 local origins on either side through a 6x6 quarter-grid of in-plane targets, towards / away", |c| {
+        drive("C13.ray.posed", "WallGeom::intersects for 6 polygons (two start with three collinear corners) x 7 poses (tilt, azimuth) x 2 positions; rays from 2 local origins on either side through a 6x6 quarter-grid of in-plane targets, towards / away", |c| {
             let poly = c.of(&polys());
             let (tilt, az) = c.of(&POSES);
             let pos = c.of(&[point![0.0f32, 0.0, 0.0], point![3.0f32, -2.0, 5.0]]);
@@ -798,7 +801,7 @@ mod n {
     // wherever the ray starts (inside or outside the element's bounding box).
     #[test]
     fn n_c13_occluder_equiv() {
-        drive("C13.occluder", "Model::collect_occluders + impl Intersectable for &Occluder vs WallGeom::intersects: 4 polygons x 7 poses x 2 positions, as wall or shade; ray origins on both sides at distance {0.3, 2.5} (inside / outside the bounding box), 6x6 in-plane targets, towards / away", |c| {
+        drive("C13.occluder", "Model::collect_occluders + impl Intersectable for &Occluder vs WallGeom::intersects: 6 polygons x 7 poses x 2 positions, as wall or shade; ray origins on both sides at distance {0.3, 2.5} (inside / outside the bounding box), 6x6 in-plane targets, towards / away", |c| {
             let poly = c.of(&polys());
             let (tilt, az) = c.of(&POSES);
             let pos = c.of(&[point![0.0f32, 0.0, 0.0], point![3.0f32, -2.0, 5.0]]);
@@ -843,7 +846,7 @@ mod n {
 
     #[test]
     fn n_c13_geom_aabb() {
-        drive("C13.geom.aabb", "WallGeom::aabb for 4 polygons x 7 poses x 2 positions: contains every transformed corner and is tight", |c| {
+        drive("C13.geom.aabb", "WallGeom::aabb for 6 polygons x 7 poses x 2 positions: contains every transformed corner and is tight", |c| {
             let poly = c.of(&polys());
             let (tilt, az) = c.of(&POSES);
             let pos = c.of(&[point![0.0f32, 0.0, 0.0], point![3.0f32, -2.0, 5.0]]);
@@ -1434,7 +1437,22 @@ mod n {
     #[test]
     fn n_c20_weather_table() {
         let met = climate::met::parsemet(include_str!(concat!(env!("CARGO_MANIFEST_DIR"), "/../climate/src/zonaD3.met"))).expect("weather file parses");
-        drive("C20.weather_table", "climate/src/zonaD3.met (8760 hours): 9 orientation classes x 12 months: monthly beam / diffuse sums of period_radiation_for_surface vs MONTHLYRADDATA (zone D3); hour-by-hour day-number consistency", |c| {
+        // the generator of the embedded tables itself (met_monthly_data wants every zone: each gets the D3 file, only the D3
+        // rows are compared)
+        let generated: Vec<climate::met::MonthlySurfaceRadData> = {
+            let met2 = climate::met::parsemet(include_str!(concat!(env!("CARGO_MANIFEST_DIR"), "/../climate/src/zonaD3.met")));
+            match met2 {
+                Ok(_) => {
+                    let mut all = std::collections::HashMap::new();
+                    for z in climate::CTE_CLIMATEZONES.iter() {
+                        all.insert(z.to_string(), climate::met::parsemet(include_str!(concat!(env!("CARGO_MANIFEST_DIR"), "/../climate/src/zonaD3.met"))).unwrap());
+                    }
+                    std::panic::catch_unwind(|| climate::met::met_monthly_data(&all)).unwrap_or_default()
+                }
+                Err(_) => vec![],
+            }
+        };
+        drive("C20.weather_table", "climate/src/zonaD3.met (8760 hours): 9 orientation classes x 12 months: monthly beam / diffuse sums of period_radiation_for_surface, and the rows met_monthly_data generates, vs MONTHLYRADDATA (zone D3); hour-by-hour day-number consistency", |c| {
             use crate::climatedata::{ClimateZone, MONTHLYRADDATA};
             let k = c.pick(climate::ORIENTATIONS.len());
             let (tilt, az, name) = climate::ORIENTATIONS[k];
@@ -1459,6 +1477,13 @@ mod n {
             match table {
                 None => c.check("C20.weather.table_row", false, || format!("no D3 row for {}", name)),
                 Some(t) => {
+                    // what the generator of the tables gives for this class from the same file
+                    match generated.iter().find(|g| g.zc == "D3" && g.name == name) {
+                        None => c.check("C20.weather.generator", false, || format!("met_monthly_data gives no D3 row for {}", name)),
+                        Some(g) => {
+                            c.check("C20.weather.generator", g.tilt == tilt && g.azimuth == az && g.dir.len() == 12 && g.dif.len() == 12 && (0..12).all(|i| (g.dir[i] - t.dir[i]).abs() <= 0.0075 && (g.dif[i] - t.dif[i]).abs() <= 0.0075), || format!("{}: met_monthly_data (tilt {}, azimuth {}) gives beam {:?} diffuse {:?}; the table has {:?} / {:?}", name, g.tilt, g.azimuth, g.dir, g.dif, t.dir, t.dif));
+                        }
+                    }
                     for m in 1..=12u32 {
                         let dir: f32 = rows.iter().filter(|r| r.month == m).map(|r| r.dir).sum::<f32>() / 1000.0;
                         let dif: f32 = rows.iter().filter(|r| r.month == m).map(|r| r.dif).sum::<f32>() / 1000.0;
